@@ -150,8 +150,12 @@ def scenarios(ctx):
     A = dict(pub=2, ack=1 if not q else 0, lose=1, rebuild=1, connect=1, connack=1, tick=1 if not q else 0)
     B = dict(pub=1, sub=1 if not q else 0, ack=1 if not q else 0, tick=1 if not q else 0)
     out.append(Std('A-reconnects-B-busy', profile='pubsub', naddr=2, init=BOTH, closing=False, pub_qos=(1, 2),
-                   connects=[(False, 0, 4)], reconnects=[(False, 0, 4), (True, 0, 4)], windows=(3,),
-                   budgets=dict(tick=1 if not q else 0, setid=1), addr_budgets=[dict(A, setwin=1), B]))
+                   connects=[(False, 0, 4)], reconnects=[(False, 0, 4), (True, 0, 4)],
+                   budgets=dict(tick=1), addr_budgets=[dict(A, pub=1, ack=1, tick=1), dict(B, ack=1, tick=1)]))
+    # identifiers of one address straddling the wrap because of what the other address consumed in between
+    out.append(Std('wrap-between', profile='pub', naddr=2, init=BOTH + (('setwin', 0, 3),), closing=False, pub_qos=(1,),
+                   connects=[(False, 0, 4)], reconnects=[(False, 0, 4)], budgets=dict(setid=1),
+                   addr_budgets=[dict(pub=2, lose=1, rebuild=1, connect=1, connack=1), dict(pub=2)]))
     A2 = dict(pub=1, sub=1, ack=1, tick=1, setwin=1 if not q else 0)
     B2 = dict(pub=1, ack=1, lose=1, rebuild=1, connect=1, connack=1, unsub=1 if not q else 0, tick=1)
     out.append(Std('B-reconnects-A-busy', profile='pubsub', naddr=2, init=BOTH + (('setwin', 1, 2),), closing=False,
